@@ -91,8 +91,20 @@ let () =
                | Some (d, []) -> String.concat " " ("C" :: np :: nm :: hex_of_bytes (enc_doc d) :: rest)
                | _ -> line)
           | _ -> line in
+        (* a document that type confusion turned into a metadata document may carry a "data" binary: the
+           harness rewrote its zlib stream for the model only (normalizeStream), so metadata documents are
+           also compared with top-level "data" binaries removed *)
+        let strip_data l = match l with
+          | np :: nm :: meta :: rest when meta <> "-" ->
+              (match dec_doc (bytes_of_hex meta) with
+               | Some (d, []) ->
+                   let d' = List.filter (fun (k, v) -> not (k = bytes_of_string "data" && (match v with VBinary (_, _) -> true | _ -> false))) d in
+                   String.concat " " ("C" :: np :: nm :: hex_of_bytes (enc_doc d') :: rest)
+               | _ -> String.concat " " ("C" :: l))
+          | _ -> String.concat " " ("C" :: l) in
         (match !pending_chunk_lines with
-         | m :: r -> pending_chunk_lines := r; if m <> line && m <> canon toks then mismatch "chunk" line m
+         | m :: r -> pending_chunk_lines := r;
+             if m <> line && m <> canon toks && strip_data (List.tl (split_ws m)) <> strip_data toks then mismatch "chunk" line m
          | [] -> mismatch "chunk-extra" line "")
     | ["CF"] | ["RF"] ->
         let toks = split_ws rhs in
@@ -165,7 +177,7 @@ let () =
     | "BEGIN" :: _ -> ()
     | ("CRASH" | "HANG") :: idx :: msg ->
         incr viol;
-        Printf.printf "VIOL stream=%s line=%d implementation %s (worker index %s): %s\n" !cur_id !ln (List.hd (split_ws lhs)) idx (String.concat " " msg)
+        Printf.printf "VIOL stream=index%s line=%d implementation %s (worker index %s; the stream is line %s of streams.txt, counted from 0): %s\n" idx !ln (List.hd (split_ws lhs)) idx idx (String.concat " " msg)
     | [] -> ()
     | _ -> failwith ("unknown line: " ^ (if String.length line > 80 then String.sub line 0 80 else line))
   done with End_of_file -> ());
